@@ -999,10 +999,25 @@ def run_gp_scenario(spec):
     real_pick = bo._pick_from_locally_optimized
     picks = []
 
+    face_rng = random.Random(spec["seed"] + 4242)
+
     def rec_pick(candidates_with_optimization, exclusion_candidates, num_candidates, duplicate_detector):
         seen = []
 
         def gen():
+            # the optimiser of the acquisition function works on the closed unit cube: now and then its best point lies on a
+            # face (here: a vertex, decoded by the searcher's own ranges object) - a legal proposal like any other
+            if face_rng.random() < spec.get("p_face", 0.25):
+                try:
+                    hr = sch.searcher.hp_ranges if hasattr(sch.searcher, "hp_ranges") else sch.searcher._hp_ranges
+                    v = np.array([float(face_rng.getrandbits(1)) for _ in range(hr.ndarray_size)])
+                    lo_hi = hr.get_ndarray_bounds()
+                    v = np.array([min(max(x, a), b) for x, (a, b) in zip(v, lo_hi)])
+                    fc = hr.from_ndarray(v)
+                    seen.append((dict(fc), dict(fc)))
+                    yield dict(fc), dict(fc)
+                except Exception:  # noqa
+                    pass
             for o, p in candidates_with_optimization:
                 seen.append((dict(o), dict(p)))
                 yield o, p
@@ -1016,9 +1031,15 @@ def run_gp_scenario(spec):
     try:
         trials, running = {}, {}
         next_tid, n_sg = 0, 0
+        burst = None   # `p_burst`: one worker is much faster than the others - its trial reports level after level up to its
+        #                scheduler decision while the trials of the other workers have not reported yet
         while n_sg < spec["n_suggest"]:
-            if running and rng.random() < 0.55:
-                tid = rng.choice(sorted(running))
+            if burst is not None and burst not in running:
+                burst = None
+            if running and (burst is not None or rng.random() < 0.55):
+                tid = burst if burst is not None else rng.choice(sorted(running))
+                if burst is None and spec.get("p_burst") and rng.random() < spec["p_burst"]:
+                    burst = tid
                 if rng.random() < spec.get("p_fail", 0):
                     sch.on_trial_error(trials[tid])
                     del running[tid]
